@@ -258,7 +258,7 @@ static void build_symm(Problem &p, long n, const std::string &fam, int var, Rng 
     int kind = var % 4;
     bool neg = (var / 4) % 2 == 1, shuffle = (var / 8) % 2 == 1;
     double eps = pick3(0.01, 0.03, 0.003, (var / 16) % 3);
-    double ctie = pick3(0.05, 0.2, 0.01, (var / 48) % 3);
+    double ctie = pick3(0.05, 0.2, 0.1, (var / 48) % 3);
     VectorXd d = diag_profile(n, (var / 2) % 2, r);
     if (neg) {
       VectorXd e(n);
